@@ -22,6 +22,7 @@ import (
 	"encoding/hex"
 	"fmt"
 	"os"
+	"os/exec"
 	"path/filepath"
 	"strconv"
 	"strings"
@@ -441,6 +442,13 @@ func namedMappings(substr string) []mapping {
 	return out
 }
 
+func maxInt0(a int) int {
+	if a < 0 {
+		return 0
+	}
+	return a
+}
+
 func mirDirect(seed uint64, tier string, args []string, w *bufio.Writer) {
 	page := syscall.Getpagesize()
 	fails := 0
@@ -544,6 +552,18 @@ func mirDirect(seed uint64, tier string, args []string, w *bufio.Writer) {
 		if err := b.Destroy(); err != nil { // idempotent
 			fail("direct.destroy-twice", "second Destroy: %v", err)
 		}
+	}
+	if os.Getenv("VERIF_MIRRORED_NOSHM") == "1" {
+		// child in a private mount namespace without /dev/shm: the constructor's fallback directory; same checks, a few sizes
+		if _, err := os.Stat("/dev/shm"); err == nil {
+			return // the namespace was not what the parent asked for: no verdict
+		}
+		fmt.Fprintln(w, "NOSHM-RAN")
+		for _, req := range []int{page, 3 * page, 5*page - 1, 1<<20 + page} {
+			one(req, true)
+		}
+		fmt.Fprintf(w, "DIRECT-STAT {\"mirrored_without_dev_shm_buffers\": %d}\n", created)
+		return
 	}
 	for _, req := range reqs {
 		one(req, true)
@@ -674,6 +694,28 @@ func mirDirect(seed uint64, tier string, args []string, w *bufio.Writer) {
 		}
 		if err := b.Destroy(); err != nil {
 			fail("direct.destroy-error", "Destroy: %v", err)
+		}
+	}
+	// the same checks where /dev/shm does not exist (minimal containers): the constructor falls back to the temporary directory; a
+	// child of this process in a private user + mount namespace with an empty tmpfs over /dev
+	if self, err := os.Executable(); err == nil {
+		cmd := exec.Command("unshare", "-rm", "sh", "-c", "mount -t tmpfs none /dev && VERIF_MIRRORED_NOSHM=1 exec \"$0\" mirrored direct "+fmt.Sprint(seed)+" "+tier, self)
+		out, _ := cmd.CombinedOutput()
+		text := string(out)
+		if strings.Contains(text, "NOSHM-RAN") {
+			for _, line := range strings.Split(text, "\n") {
+				if strings.HasPrefix(line, "DIRECT-FAIL") {
+					fails++
+					fmt.Fprintln(w, strings.Replace(line, "key=mirrored.direct.", "key=mirrored.direct.no-dev-shm.", 1))
+				} else if strings.HasPrefix(line, "DIRECT-STAT") {
+					fmt.Fprintln(w, line)
+				}
+			}
+			if !strings.Contains(text, "DIRECT-STAT") {
+				fail("direct.no-dev-shm.crash", "the child without /dev/shm ended without a result: %s", strings.ReplaceAll(text[maxInt0(len(text)-300):], "\n", " | "))
+			}
+		} else {
+			fmt.Fprintf(w, "DIRECT-STAT {\"mirrored_without_dev_shm\": \"skipped (no private mount namespace here)\"}\n")
 		}
 	}
 	// requests the constructor must reject leave nothing behind
